@@ -778,7 +778,7 @@ def rule_sanity(ctx):
 # reads the path-insensitive analysis cannot justify, each confirmed by reading the code (one named variable per entry)
 DEFINED_EXEMPT = {
     ("ec_util", "EcCurve.BatchMultiplyG", "res"):
-        "bound in the first pass of `for i in range(steps - 1, -1, -1)`; the loop has at least one pass because steps = ceil(bit_length(n) / 8) >= 1 for every "
+        "(the read in the final `return res`) bound in the first pass of `for i in range(steps - 1, -1, -1)`; the loop has at least one pass because steps = ceil(bit_length(n) / 8) >= 1 for every "
         "curve order n > 0 (the nine orders are pinned by R-C11-CURVES)",
 }
 
@@ -809,8 +809,8 @@ def rule_defined(ctx, R="R-C18-DEFINED", scope="C18"):
       reps = defassign.analyse(fn)
       bad = []
       for name, line, why in reps:
-        if (m.short, qual, name) in DEFINED_EXEMPT:
-          continue
+        if (m.short, qual, name) in DEFINED_EXEMPT and any(isinstance(st_, ast.Return) and st_.lineno <= line <= (st_.end_lineno or st_.lineno) for st_ in fn.body):
+          continue          # the exemption covers the read in the function's final `return` only, not reads inside the loop
         bad.append("`%s` at line %d: %s" % (name, line, why))
       ctx.record(R, "%s:%s" % (m.short, qual), "locals bound before use", not bad, "; ".join(bad) or
                  ("every read of a local is dominated by a binding" + ("" if not any((m.short, qual, nm) in DEFINED_EXEMPT for nm, _, _ in reps) else
